@@ -469,6 +469,8 @@ class FuncLower(ExprMixin):
             return
         self.locals[d['id']] = (nm, t, False)
         self.emit('%s;' % cdecl(t, nm))
+        if L.rec_of_type(self._elem(t)) is not None:
+            self.emit('FRGV_RAW_STORAGE(%s);' % nm)
         if init is not None:
             self.init_object(E(nm), t, init)
         r = L.rec_of_type(t) if t[0] != 'arr' else L.rec_of_type(self._elem(t))
